@@ -354,11 +354,13 @@ func (rp *RepData) loadFromJSON(logger *slog.Logger, vodFS fs.FS, repDataDir, as
 
 func (rp *RepData) addRegExpAndInit(logger *slog.Logger, vodFS fs.FS, assetPath string) error {
 	switch {
+	// The whole segment path must match (a representation "1" must not answer for "11/..."),
+	// and the characters of the template are literal.
 	case strings.Contains(rp.MediaURI, "$Number$"):
-		rexStr := strings.ReplaceAll(rp.MediaURI, "$Number$", `(\d+)`)
+		rexStr := "^" + strings.ReplaceAll(regexp.QuoteMeta(rp.MediaURI), regexp.QuoteMeta("$Number$"), `(\d+)`) + "$"
 		rp.mediaRegexp = regexp.MustCompile(rexStr)
 	case strings.Contains(rp.MediaURI, "$Time$"):
-		rexStr := strings.ReplaceAll(rp.MediaURI, "$Time$", `(\d+)`)
+		rexStr := "^" + strings.ReplaceAll(regexp.QuoteMeta(rp.MediaURI), regexp.QuoteMeta("$Time$"), `(\d+)`) + "$"
 		rp.mediaRegexp = regexp.MustCompile(rexStr)
 	default:
 		return fmt.Errorf("neither $Number$, nor $Time$ found in media")
